@@ -138,6 +138,41 @@ impl BTree {
 //@end
 }
 
+//@item nervusdb-storage/src/index/btree.rs struct PathEntry keep-derive
+/// an entry (key, payload) was put in front of all equal keys of leaf `l`, which had room; nothing else changed
+pub open spec fn inserted_at(o: &Pager, n: &Pager, l: u64, i: int, key: Seq<u8>, payload: u64) -> bool {
+    leaf_wf(pg(o, l)) && 0 <= i <= pg_count(pg(o, l))
+    && (forall|j: int| 0 <= j < i ==> lex_lt(#[trigger] leaf_cells(pg(o, l))[j].0, key))
+    && (forall|j: int| i <= j < pg_count(pg(o, l)) ==> lex_le(key, #[trigger] leaf_cells(pg(o, l))[j].0))
+    && leaf_wf(pg(n, l)) && leaf_cells(pg(n, l)) == leaf_cells(pg(o, l)).insert(i, (key, payload)) && only_changed(o, n, l)
+}
+/// stands for the split branch of BTree::insert (leaf split, separator, insert_into_parent): NOT decided
+pub uninterp spec fn split_happened(o: &Pager, n: &Pager) -> bool;
+impl BTree {
+    //@trusted v_split_branch: the `Err(_) => { .. }` arm of BTree::insert (collect the leaf's entries, split at the median, rebuild both leaves, insert the separator into the parent) uses iterator adapters (map/collect, partition_point, enumerate) that Verus cannot ingest; it is replaced by this stub, which says nothing about what the split does - cross-page behaviour is not decided
+    #[verifier::external_body]
+    pub fn v_split_branch(&mut self, pager: &mut Pager, path: &mut Vec<PathEntry>, cur: PageId, key: &[u8], payload: u64) -> (r: Result<()>)
+        ensures split_happened(old(pager), final(pager))
+    { unimplemented!() }
+
+// C26.tree.insert.no_split — tree-level contract of BTree::insert for the case that the leaf reached by
+// the descent has room: exactly one page changes, a leaf, by inserting exactly (key, payload) at the
+// lower-bound position of the key in that leaf - in front of all equal keys there, so a lookup that
+// reaches this leaf returns the new payload.  (The split case is a stub: not decided.)  Termination not proved.
+//@extract nervusdb-storage/src/index/btree.rs BTree::insert ret r
+//@attr #[verifier::exec_allows_no_decreases_clause]
+//@| requires tree_pages_ok(old(pager)), key@.len() <= 0x7fff_ffff_ffff_ffff,
+//@| ensures r is Ok ==> split_happened(old(pager), final(pager)) || exists|l: u64, i: int| #[trigger] inserted_at(old(pager), final(pager), l, i, key@, payload),
+//@|     r is Err ==> split_happened(old(pager), final(pager)) || forall|x: u64, y: u64| pg(final(pager), x) != pg(old(pager), x) && pg(final(pager), y) != pg(old(pager), y) ==> x == y,
+//@preregex "(?s)Err\(_\) => \{\s*// Split leaf\..*?self\.insert_into_parent\(pager, &mut path, cur, sep_key, right_id\)\?;\s*return Ok\(\(\)\);\s*\}" => "Err(_) => { return self.v_split_branch(pager, &mut path, cur, key, payload); }"
+//@loop 1
+//@| invariant tree_pages_ok(old(pager)), forall|o: u64| #[trigger] pg(pager, o) == pg(old(pager), o), *pager == *old(pager),
+//@|     key@.len() <= 0x7fff_ffff_ffff_ffff,
+//@proof before 1 "=return Ok(());"
+//@| assert(inserted_at(old(pager), pager, cur.0, idx as int, key@, payload));
+//@end
+}
+
 //@canary|pub proof fn canary_leaf_wf(b: Seq<u8>) requires leaf_wf(b), pg_count(b) == 3, keys_sorted(leaf_cells(b)), leaf_cells(b)[0].0 == leaf_cells(b)[1].0 ensures false {}
 //@canary|pub proof fn canary_internal_wf(b: Seq<u8>) requires internal_wf(b), pg_count(b) == 2, seps_sorted(int_seps(b)) ensures false {}
 //@canary|pub proof fn canary_insert_fits(b: Seq<u8>, k: Seq<u8>) requires leaf_wf(b), pg_count(b) == 1, k.len() == 300, 24 + 2 * pg_count(b) + 2 + vlen(k.len() as u32) + k.len() + 8 <= pg_begin(b) ensures false {}
